@@ -24,7 +24,7 @@ pub fn gen_spectated(r: &mut Rng, frames: i32) -> Scn {
     s.frames = frames;
     s.notify_ms = 20_000;
     s.timeout_ms = 30_000;
-    s.link = Link { drop: r.pick(&[0.0, 0.0, 0.05]), dup: r.pick(&[0.0, 0.1]), base_ms: r.pick(&[0u64, 10, 40]), jitter_ms: r.pick(&[0u64, 5, 20]), outages: vec![], faults: vec![] };
+    s.link = Link { drop: r.pick(&[0.0, 0.0, 0.05]), dup: r.pick(&[0.0, 0.1]), base_ms: r.pick(&[0u64, 10, 40]), jitter_ms: r.pick(&[0u64, 5, 20]), outages: vec![], faults: vec![], stragglers: vec![] };
     let nsp = r.range(1, 2) as usize;
     for si in 0..nsp {
         let mut sp = SpecCfg::new(r.below(s.peers.len() as u64) as usize);
@@ -36,7 +36,7 @@ pub fn gen_spectated(r: &mut Rng, frames: i32) -> Scn {
             sp.pauses.push((a, a + r.pick(&[200u64, 500, 900, 1500, 3000])));
         }
         // the spectator link may be worse than the player links
-        let l = Link { drop: r.pick(&[0.0, 0.0, 0.05, 0.2]), dup: r.pick(&[0.0, 0.1]), base_ms: r.pick(&[0u64, 10, 40, 100]), jitter_ms: r.pick(&[0u64, 5, 40]), outages: vec![], faults: vec![] };
+        let l = Link { drop: r.pick(&[0.0, 0.0, 0.05, 0.2]), dup: r.pick(&[0.0, 0.1]), base_ms: r.pick(&[0u64, 10, 40, 100]), jitter_ms: r.pick(&[0u64, 5, 40]), outages: vec![], faults: vec![], stragglers: vec![] };
         s.link_overrides.push((peer_addr(sp.host), spec_addr(si), l.clone()));
         s.link_overrides.push((spec_addr(si), peer_addr(sp.host), l));
         s.specs.push(sp);
